@@ -2,7 +2,7 @@
 //! and nothing else; `#[instrument]` is the identity.
 //!
 //! A scheduling point is a no-op unless a harness has armed it (`sched::arm()`); when armed it
-//! calls the harness-provided `verif_sched_point()` (defined `#[no_mangle]` in
+//! calls the callback the harness installed with `sched::set_hook` (see
 //! /verif/harness/mux/common.rs).  C12 uses this to run the connection task's
 //! `acknowledge` / `disallow_write` *between* two statements of the writer's poll, at the
 //! places where the real code logs.  Arguments of the macros are not evaluated.
@@ -14,8 +14,11 @@ pub mod sched {
     use core::sync::atomic::{AtomicBool, AtomicUsize, Ordering};
     static ARMED: AtomicBool = AtomicBool::new(false);
     static POINTS: AtomicUsize = AtomicUsize::new(0);
-    unsafe extern "Rust" {
-        fn verif_sched_point(index: usize);
+    // the harness-provided callback (a plain fn pointer: Kani cannot link `extern "Rust"`
+    // declarations across crates)
+    static mut HOOK: Option<fn(usize)> = None;
+    pub fn set_hook(f: fn(usize)) {
+        unsafe { HOOK = Some(f) };
     }
     pub fn arm() {
         POINTS.store(0, Ordering::Relaxed);
@@ -34,7 +37,9 @@ pub mod sched {
             let i = POINTS.fetch_add(1, Ordering::Relaxed);
             // not re-entrant: the injected code may log as well
             ARMED.store(false, Ordering::Relaxed);
-            unsafe { verif_sched_point(i) };
+            if let Some(f) = unsafe { HOOK } {
+                f(i);
+            }
             ARMED.store(true, Ordering::Relaxed);
         }
     }
